@@ -104,7 +104,9 @@ def run_schedule(pp, pkg, a, b, settings, k, j=None):
         sys.settrace(None)
         resume.set()
     if 't' in holder:
-        holder['t'].join(15)
+        holder['t'].join(30)
+        if holder['t'].is_alive():
+            raise RuntimeError('scheduler: thread 2 did not finish in time (loaded machine?)')      # reported as harness_error, never as a violation
     else:
         _pformat(pp, b, settings, out, 1)
     return out[0], out[1], tr.count
@@ -188,6 +190,8 @@ def main():
                             if res is None:
                                 continue
                             if isinstance(res, dict):
+                                if 'did not finish in time' in res['harness_error']:
+                                    continue        # this one schedule could not be driven; not a result
                                 out_bad.append({'scenario': name, 'harness_error': res['harness_error']})
                                 continue
                             ra, rb = _canon(res[0]), _canon(res[1])
